@@ -155,7 +155,7 @@ func NewFuncList(fs []interface{}, opts ...Arg) ([]*Func, error) {
 	result := make([]*Func, len(fs))
 	for i, f := range fs {
 		var err error
-		result[i], err = NewFunc(f)
+		result[i], err = NewFunc(f, opts...)
 		if err != nil {
 			return nil, err
 		}
